@@ -21,7 +21,7 @@ def collect(patterns):
         meta, patch = os.path.join(d, 'meta.json'), os.path.join(d, 'patch.diff')
         if os.path.exists(meta) and os.path.exists(patch):
             m = json.load(open(meta))
-            items.append(('seeded/' + os.path.basename(d), m['property'], patch))
+            items.append(('seeded/' + os.path.basename(d), m.get('check_with', m['property']), patch))
     if patterns:
         items = [i for i in items if any(fnmatch.fnmatch(i[0], pt) or pt in i[0] for pt in patterns)]
     return items
@@ -57,8 +57,34 @@ def run_one(name, pid, patch, tier, with_tests, extra_checks=()):
     finally:
         shutil.rmtree(scratch, ignore_errors=True)
 
+def benign(patterns, tier):
+    """benign/*.patch: property-preserving changes (a '# checks: C07 C05' header names the checks to run, default all).
+    Every named check must exit 0 on the patched copy."""
+    man = json.load(open(os.path.join(HERE, 'MANIFEST.json')))
+    all_ids = [c['property_id'] for c in man['checks']]
+    bad = 0
+    for p in sorted(glob.glob(os.path.join(HERE, 'benign', '*.patch'))):
+        name = os.path.basename(p)[:-6]
+        if patterns and not any(pt in name for pt in patterns):
+            continue
+        head = open(p).readline()
+        ids = head.split(':', 1)[1].split() if head.startswith('# checks:') else all_ids
+        r = run_one('benign/' + name, ids[0], p, tier, True, extra_checks=tuple(ids[1:]))
+        if r.get('status'):
+            print('PATCH-FAILED  %s %s' % (name, r.get('detail', '')[:200]))
+            bad += 1
+            continue
+        alarms = [(cid, o['exit'], (o['lines'] or [''])[0][:150]) for cid, o in r['checks'].items() if o['exit'] != 0]
+        print('%-13s %-36s tests=%s %s' % ('QUIET' if not alarms else 'FALSE-ALARM', name, 'pass' if r.get('tests_pass') else 'FAIL',
+                                            alarms if alarms else 'checks: ' + ' '.join(ids)), flush=True)
+        bad += bool(alarms)
+    return 1 if bad else 0
+
+
 def main():
     args = sys.argv[1:]
+    if args and args[0] == '--benign':
+        return benign(args[1:], 'quick')
     tier, with_tests = 'quick', False
     pats = []
     while args:
